@@ -38,7 +38,8 @@ def passloop_model(out, tier):
 
 
 def steps_check(out, rvh, wd, texts):
-    hc = [{"id": i + 1, "mode": "steps", "text": t, "history": STEP_HISTORY} for i, t in enumerate(texts)]
+    hc = [dict({"id": i + 1, "mode": "steps", "history": STEP_HISTORY},
+               **({"files": json.loads(t), "base": "main.s"} if t.startswith("{") else {"text": t})) for i, t in enumerate(texts)]
     tp, evs = run_harness_par(rvh, hc, wd, "steps", timeout_ms=30000, shards=8)
     trace, owner = [], []
     nprog = 0
@@ -106,7 +107,7 @@ def run(tier, replay=None):
     out.add_tlc(gres)
     hists = [h["hist"] for h in hists]
     if replay:
-        texts = [json.load(open(replay))["witness"]["text"]]
+        texts = [json.load(open(replay))["witness"]["text"]]      # a multi-file input is its JSON text
     else:
         nval, nflow = (60, 120) if tier == "quick" else (1500, 3000)
         r1 = run_tlc("Gen_Values", cfg="Gen_Values_sim", simulate=nval, depth=30, workers=4, seed_=seed() * 5 + 1)
@@ -122,12 +123,27 @@ def run(tier, replay=None):
         texts += list(dict.fromkeys(c["text"] for c in cres.tagged("CASE"))) + corpus.SHARED_PROGRAMS
         texts += list(corpus.all_programs().values()) + corpus.VALUE_PROGRAMS + corpus.LOOP_PROGRAMS
         texts = list(dict.fromkeys(texts))
-    hc = [{"id": i + 1, "mode": "stable", "text": t, "histories": hists, "digest": not replay} for i, t in enumerate(texts)]
+        texts += [json.dumps(f, sort_keys=True) for f in corpus.TWIN_FILES]      # multi-file inputs travel as JSON text
+
+    def case_of(i, t):
+        c = {"id": i + 1, "mode": "stable", "histories": hists, "digest": not replay}
+        if t.startswith("{"):
+            c["files"], c["base"] = json.loads(t), "main.s"
+        else:
+            c["text"] = t
+        return c
+    hc = [case_of(i, t) for i, t in enumerate(texts)]
     tp, evs = run_harness_par(rvh, hc, wd, "stable", timeout_ms=30000, shards=12)
     trace = []
     owner = []
     nruns = 0
+    hangs = []
     for i, e in enumerate(evs):
+        if e["ev"] == "timeout":
+            # "the analyses reach this fixed point in a number of sweeps bounded by a small multiple of the program size":
+            # no result within the watchdog (30 s for a program of a few dozen instructions) is a violation here too
+            hangs.append({"id": i + 1, "key": "C12:no-fixed-point-within-the-watchdog", "text": texts[i]})
+            continue
         if e["ev"] != "stable":
             out.notes.append(f"program {i + 1} not observable ({e['ev']}): C06's business")
             continue
@@ -167,6 +183,7 @@ def run(tier, replay=None):
         x["event"] = {k: trace[x["id"] - 1].get(k) for k in ("ev", "pass", "hist")}
     out.add_verdicts(v)
     out.add_verdicts(sv)
+    out.add_verdicts(hangs)
     maxsw = {}
     for t in trace:
         for s in t.get("sweeps", []):
